@@ -281,6 +281,19 @@ def render_ini(ctx, target_spelling=None, bad=None):
     return "\n".join(out) + "\n"
 
 
+class LazyDict(dict):
+    """a dictionary that holds nothing until it is asked: d[key] works, d.get(key) and iteration see an empty mapping"""
+
+    def __init__(self, full):
+        dict.__init__(self)
+        self._full = dict(full)
+
+    def __missing__(self, key):
+        v = self._full[key]
+        self[key] = v
+        return v
+
+
 def build_objects(ctx, counter):
     """Python-API objects of the model: (pair Potentials, EAMPotentials, dipoles, quadrupoles)"""
     m = ctx.m
@@ -305,6 +318,10 @@ def build_objects(ctx, counter):
                 # every key of the dictionary as a column: not asserted either way)
                 foreign = [lab for lab in ctx.labels if lab not in [L(x) for x in m["els"]]][0]
                 dd[foreign] = PyFn(probe(dict(f="dens", s=a, t=a)), counter, "dens %d->foreign" % a)
+            if ctx.idx % 5 == 4 and m["tgt"] in ("setfl_fs", "DL_POLY_EAM_fs"):
+                # the text writers look densities up by element: any mapping will do, here one that produces the functions on first
+                # look-up (a dict with __missing__, like collections.defaultdict); the Excel writer lists the mapping's keys instead
+                dd = LazyDict(dd)
             dens = dd
         else:
             dens = PyFn(probe(dict(f="dens", s=a, t=0)) if [a, 0] in m["densDecl"] else ZERO, counter, "dens %d" % a)
